@@ -42,6 +42,65 @@ VOCAB = {
 }
 
 
+# vocabulary with a definition in the repository: hook arguments are bound to the parameter names of that definition,
+# so that keyword / positional spelling of the call in the analysed code does not matter
+SIG = {
+    "evaluate_deltas": ("func:evaluate_deltas", "func"),
+    "order_substitutions": ("indices:order_substitutions", "func"),
+    "minimize_tensor_indices": ("indices:minimize_tensor_indices", "func"),
+    "factor_and_remove_number": ("eri_orbenergy:factor_and_remove_number", "func"),
+    "factor_eri_parts": ("reduce_expr:factor_eri_parts", "func"),
+    "factor_denom": ("reduce_expr:factor_denom", "func"),
+    "find_compatible_eri_parts": ("reduce_expr:find_compatible_eri_parts", "func"),
+    "find_compatible_denom": ("reduce_expr:find_compatible_denom", "func"),
+    "find_compatible_terms": ("simplify:find_compatible_terms", "func"),
+    "EriOrbenergy": ("eri_orbenergy:EriOrbenergy.__init__", "ctor"),
+    "Expr": ("expr_container:Expr.__init__", "ctor"),
+    "NonSymmetricTensor": ("sympy_objects:NonSymmetricTensor.__new__", "ctor"),
+    "SymmetricTensor": ("sympy_objects:SymmetricTensor.__new__", "ctor"),
+    "AntiSymmetricTensor": ("sympy_objects:AntiSymmetricTensor.__new__", "ctor"),
+    "denom_eri_sym": ("eri_orbenergy:EriOrbenergy.denom_eri_sym", "method"),
+    "symmetry": ("expr_container:Term.symmetry", "method"),
+    "set_antisym_tensors": ("expr_container:Expr.set_antisym_tensors", "method"),
+    "set_sym_tensors": ("expr_container:Expr.set_sym_tensors", "method"),
+    "set_target_idx": ("expr_container:Expr.set_target_idx", "method"),
+    "substitute_contracted": ("expr_container:Term.substitute_contracted", "method"),
+    "expand_itmd": ("intermediates:RegisteredIntermediate.expand_itmd", "method"),
+}
+
+
+def arg(a, kw, pos, name, default=None):
+    """Argument of a hooked call by parameter name (after binding) or position."""
+    if name in kw:
+        return kw[name]
+    if pos is not None and pos < len(a):
+        return a[pos]
+    return default
+
+
+def named(sx, name, a, kw, recv=False):
+    """(positional rest, {parameter name: value}) of a hooked call bound to the repository definition of ``name``."""
+    if name not in SIG or "**" in kw:
+        return list(a), dict(kw)
+    ref, kind = SIG[name]
+    if not sx.model.has_fn(ref):
+        return list(a), dict(kw)
+    fn = sx.model.fn(ref)
+    try:
+        if kind == "func":
+            b = sx.bind(fn, list(a), dict(kw), False, True, True)
+            return [], b
+        if kind == "ctor":
+            b = sx.bind(fn, list(a), dict(kw), True, True, True)
+            return [], b
+        b = sx.bind(fn, list(a), dict(kw), False, True, True)
+        first = fn.args.args[0].arg
+        me = b.pop(first, None)
+        return [me], b
+    except Exception:
+        return list(a), dict(kw)
+
+
 def frac(x):
     x = Fraction(x)
     return int(x) if x.denominator == 1 else x
@@ -585,28 +644,31 @@ class World:
             "sympify": lambda sx, a, kw: raw(a[0]),
             "nsimplify": lambda sx, a, kw: raw(a[0]),
             "Expr": self._h_expr,
-            "NonSymmetricTensor": lambda sx, a, kw: tensor("NonSymmetricTensor", a[0], tuple(a[1])),
-            "SymmetricTensor": lambda sx, a, kw: tensor("SymmetricTensor", a[0], tuple(a[1]), tuple(a[2]),
-                                                        a[3] if len(a) > 3 else kw.get("bra_ket_sym", 0)),
-            "AntiSymmetricTensor": lambda sx, a, kw: tensor("AntiSymmetricTensor", a[0], tuple(a[1]), tuple(a[2]),
-                                                            a[3] if len(a) > 3 else kw.get("bra_ket_sym", 0)),
+            "NonSymmetricTensor": lambda sx, a, kw: tensor("NonSymmetricTensor", arg(a, kw, 0, "name"), tuple(arg(a, kw, 1, "indices"))),
+            "SymmetricTensor": lambda sx, a, kw: tensor("SymmetricTensor", arg(a, kw, 0, "name"), tuple(arg(a, kw, 1, "upper")),
+                                                        tuple(arg(a, kw, 2, "lower")), arg(a, kw, 3, "bra_ket_sym", 0)),
+            "AntiSymmetricTensor": lambda sx, a, kw: tensor("AntiSymmetricTensor", arg(a, kw, 0, "name"), tuple(arg(a, kw, 1, "upper")),
+                                                            tuple(arg(a, kw, 2, "lower")), arg(a, kw, 3, "bra_ket_sym", 0)),
             "KroneckerDelta": self._h_delta,
             "evaluate_deltas": self._h_evaluate_deltas,
-            "order_substitutions": lambda sx, a, kw: [(k, v) for k, v in a[0].items()],
+            "order_substitutions": lambda sx, a, kw: [(k, v) for k, v in arg(a, kw, 0, "subsdict").items()],
             "len": self._h_len,
             "Symbol": lambda sx, a, kw: sym(a[0]) if isinstance(a[0], str) else NotImplemented,
         }
         for name, f in METHODS.items():
             h[name] = (lambda sx, a, kw, f=f: f(self, sx, a, kw))
         h.update(self.extra_hooks)
+        for name in list(h):
+            if name in SIG and callable(h[name]):
+                h[name] = (lambda sx, a, kw, f=h[name], name=name: f(sx, *named(sx, name, a, kw)))
         return h
 
     def _h_expr(self, sx, a, kw):
-        e = a[0] if a else kw.get("e")
-        kw = {k: v for k, v in kw.items() if k != "e"}
         if "**" in kw:
             return NotImplemented
+        e = arg(a, kw, 0, "e")
         names = ("real", "sym_tensors", "antisym_tensors", "target_idx")
+        kw = {k: v for k, v in kw.items() if k in names}
         for k, v in zip(names, a[1:]):
             kw[k] = v
         rec = self.expr(e, **kw)
@@ -629,8 +691,8 @@ class World:
     def _h_evaluate_deltas(self, sx, a, kw):
         """Contract of func.evaluate_deltas for one delta: a contracted index of the delta is removed (the second
         one first), the delta stays if both indices are targets."""
-        v = norm(raw(a[0]))
-        target = a[1] if len(a) > 1 else kw.get("target_idx")
+        v = norm(raw(arg(a, kw, 0, "expr")))
+        target = arg(a, kw, 1, "target_idx")
         self.log.append(("evaluate_deltas", (v, target)))
         if target is None or isinstance(target, T):
             return NotImplemented
@@ -823,7 +885,7 @@ def _m_set_antisym(w, sx, a, kw):
     x = a[0]
     if _kind(x) != "expr":
         return NotImplemented
-    names = a[1] if len(a) > 1 else kw.get("antisym_tensors")
+    names = arg(a, kw, 1, "antisym_tensors")
     x.attrs["$ass"] = dict(x.attrs["$ass"], antisym_tensors=tuple(sorted(set(names))))
     w.log.append(("set_antisym_tensors", tuple(sorted(set(names)))))
     return None
@@ -833,7 +895,7 @@ def _m_set_sym(w, sx, a, kw):
     x = a[0]
     if _kind(x) != "expr":
         return NotImplemented
-    names = a[1] if len(a) > 1 else kw.get("sym_tensors")
+    names = arg(a, kw, 1, "sym_tensors")
     x.attrs["$ass"] = dict(x.attrs["$ass"], sym_tensors=tuple(sorted(set(names))))
     return None
 
@@ -842,7 +904,7 @@ def _m_set_target(w, sx, a, kw):
     x = a[0]
     if _kind(x) != "expr":
         return NotImplemented
-    tg = a[1] if len(a) > 1 else kw.get("target_idx")
+    tg = arg(a, kw, 1, "target_idx")
     x.attrs["$ass"] = dict(x.attrs["$ass"], target_idx=tuple(tg) if isinstance(tg, (list, tuple)) else tg)
     return None
 
